@@ -613,6 +613,105 @@ fn run_program(seed: u64, hid: u64, maxops: usize) {
     line!("E");
 }
 
+#[derive(Clone)]
+struct Big([u64; 512]);
+impl Default for Big {
+    fn default() -> Self {
+        Big([0; 512])
+    }
+}
+
+/// C19: size-taking entry points on both sides of every overflow boundary, for several
+/// element sizes; compared with std where std does not abort, and with the model
+fn grid() {
+    fn class<R>(r: Result<R, Box<dyn std::any::Any + Send>>) -> String {
+        match r { Ok(_) => "ok".into(), Err(e) => format!("panic:{}", panic_kind(e)) }
+    }
+    fn one<T: Default + Clone + 'static>() {
+        let es = std::mem::size_of::<T>();
+        let ea = std::mem::align_of::<T>();
+        let m = usize::MAX;
+        let im = isize::MAX as usize;
+        let d = es.max(1);
+        let mut counts = vec![0usize, 1, 5, m, m - 1, m / 2, m / 2 + 1, m / d, m / d + 1, im / d, im / d + 1, (im / d).saturating_sub(1), im, im + 1];
+        counts.sort();
+        counts.dedup();
+        for len0 in [0usize, 3] {
+            for &n in &counts {
+                // std would abort (not panic) on a real allocation failure: only ask std when the
+                // request is small or cannot even form a layout
+                let total = (len0 as u128 + n as u128) * es as u128;
+                let std_safe = es == 0 || total < (1u128 << 20) || total > im as u128 || (len0 as u128 + n as u128) > m as u128;
+                for entry in ["with_capacity", "reserve", "reserve_exact", "try_reserve", "try_reserve_exact"] {
+                    if entry == "with_capacity" && len0 != 0 { continue; }
+                    let bump = Bump::new();
+                    let (bres, bcap) = {
+                        let r = catch_unwind(AssertUnwindSafe(|| -> (String, usize) {
+                            if entry == "with_capacity" {
+                                let v: BVec<T> = BVec::with_capacity_in(n, &bump);
+                                return ("ok".into(), v.capacity());
+                            }
+                            let mut v: BVec<T> = BVec::new_in(&bump);
+                            for _ in 0..len0 { v.push(T::default()); }
+                            let r = match entry {
+                                "reserve" => { v.reserve(n); "ok".to_string() }
+                                "reserve_exact" => { v.reserve_exact(n); "ok".to_string() }
+                                "try_reserve" => match v.try_reserve(n) { Ok(()) => "ok".into(), Err(e) => if format!("{:?}", e).contains("CapacityOverflow") { "err:capacity".into() } else { "err:alloc".into() } },
+                                _ => match v.try_reserve_exact(n) { Ok(()) => "ok".into(), Err(e) => if format!("{:?}", e).contains("CapacityOverflow") { "err:capacity".into() } else { "err:alloc".into() } },
+                            };
+                            (r, v.capacity())
+                        }));
+                        match r { Ok((s, c)) => (s, c), Err(e) => (format!("panic:{}", panic_kind(e)), 0) }
+                    };
+                    let sres = if !std_safe { "skip".to_string() } else {
+                        let r = catch_unwind(AssertUnwindSafe(|| -> String {
+                            if entry == "with_capacity" { let v: Vec<T> = Vec::with_capacity(n); let _ = v.capacity(); return "ok".into(); }
+                            let mut v: Vec<T> = Vec::new();
+                            for _ in 0..len0 { v.push(T::default()); }
+                            match entry {
+                                "reserve" => { v.reserve(n); "ok".to_string() }
+                                "reserve_exact" => { v.reserve_exact(n); "ok".to_string() }
+                                "try_reserve" => match v.try_reserve(n) { Ok(()) => "ok".into(), Err(e) => if format!("{:?}", e).contains("CapacityOverflow") { "err:capacity".into() } else { "err:alloc".into() } },
+                                _ => match v.try_reserve_exact(n) { Ok(()) => "ok".into(), Err(e) => if format!("{:?}", e).contains("CapacityOverflow") { "err:capacity".into() } else { "err:alloc".into() } },
+                            }
+                        }));
+                        match r { Ok(s) => s, Err(e) => format!("panic:{}", panic_kind(e)) }
+                    };
+                    println!("G {} {} {} {} {} | {} {} | {}", entry, es, ea, len0, n, bres, bcap, sres);
+                }
+            }
+        }
+    }
+    one::<()>();
+    one::<u8>();
+    one::<[u8; 3]>();
+    one::<u64>();
+    one::<[u64; 3]>();
+    one::<Big>();
+    // slices of zero-sized elements whose lengths sum past usize::MAX
+    {
+        let z: &[()] = unsafe { std::slice::from_raw_parts(std::ptr::NonNull::<()>::dangling().as_ptr(), usize::MAX) };
+        let bump = Bump::new();
+        let b = catch_unwind(AssertUnwindSafe(|| { let mut v: BVec<()> = BVec::new_in(&bump); v.extend_from_slices_copy(&[z, z]); v.len() }));
+        let s = catch_unwind(AssertUnwindSafe(|| { let mut v: Vec<()> = Vec::new(); v.extend_from_slice(z); v.extend_from_slice(z); v.len() }));
+        println!("Z extend_from_slices_copy_zst_sum_wraps | {} | {}", match &b { Ok(n) => format!("ok:{}", n), Err(_) => "panic".into() }, match &s { Ok(n) => format!("ok:{}", n), Err(_) => "panic".into() });
+        let b = catch_unwind(AssertUnwindSafe(|| { let mut v: BVec<()> = BVec::new_in(&bump); v.extend_from_slice_copy(z); v.extend_from_slice_copy(&[(), ()]); v.len() }));
+        let s = catch_unwind(AssertUnwindSafe(|| { let mut v: Vec<()> = Vec::new(); v.extend_from_slice(z); v.extend_from_slice(&[(), ()]); v.len() }));
+        println!("Z extend_from_slice_copy_zst_past_max | {} | {}", match &b { Ok(n) => format!("ok:{}", n), Err(_) => "panic".into() }, match &s { Ok(n) => format!("ok:{}", n), Err(_) => "panic".into() });
+        let b = catch_unwind(AssertUnwindSafe(|| { let mut v: BVec<Tok> = BVec::new_in(&bump); v.resize(usize::MAX, Tok::new(1)); v.len() }));
+        let s = catch_unwind(AssertUnwindSafe(|| { let mut v: Vec<Tok> = Vec::new(); v.resize(usize::MAX, Tok::new(1)); v.len() }));
+        println!("Z resize_to_usize_max | {} | {}", match &b { Ok(n) => format!("ok:{}", n), Err(_) => "panic".into() }, match &s { Ok(n) => format!("ok:{}", n), Err(_) => "panic".into() });
+        let b = catch_unwind(AssertUnwindSafe(|| { let mut st = bumpalo::collections::String::new_in(&bump); st.push('a'); st.reserve(usize::MAX); st.len() }));
+        let s = catch_unwind(AssertUnwindSafe(|| { let mut st = String::new(); st.push('a'); st.reserve(usize::MAX); st.len() }));
+        println!("Z string_reserve_usize_max | {} | {}", match &b { Ok(n) => format!("ok:{}", n), Err(_) => "panic".into() }, match &s { Ok(n) => format!("ok:{}", n), Err(_) => "panic".into() });
+        let b = catch_unwind(AssertUnwindSafe(|| { let st = bumpalo::collections::String::with_capacity_in(isize::MAX as usize + 1, &bump); st.len() }));
+        let s = catch_unwind(AssertUnwindSafe(|| { let st = String::with_capacity(isize::MAX as usize + 1); st.len() }));
+        println!("Z string_with_capacity_past_isize_max | {} | {}", match &b { Ok(n) => format!("ok:{}", n), Err(_) => "panic".into() }, match &s { Ok(n) => format!("ok:{}", n), Err(_) => "panic".into() });
+        take_drops();
+    }
+    let _ = class::<()>;
+}
+
 fn main() {
     std::panic::set_hook(Box::new(|_| {}));
     let args: Vec<String> = std::env::args().collect();
@@ -622,6 +721,9 @@ fn main() {
             let count: u64 = args[3].parse().unwrap();
             let maxops: usize = args.get(4).map(|s| s.parse().unwrap()).unwrap_or(40);
             let first: u64 = args.get(5).map(|s| s.parse().unwrap()).unwrap_or(0);
+            if first == 0 {
+                grid();
+            }
             for hid in first..first + count {
                 reset_world_state(1);
                 run_program(seed, hid, maxops);
